@@ -265,6 +265,8 @@ def robustness_stream(ctx):
                 if t.get('end') is not None and t['end'] > c['now']:
                     t['end'] = None
         cases.append(c)
+    # aimed: work that fits into one overtime day (closed in the calendar, opened by the resource for this task)
+    cases += [sc.gen_overtime_case(ctx.rng, d) for d in ('bwd', 'fwd', 'bwd', 'fwd')]
     outs = []
     for i in range(0, len(cases), 20):
         outs += ctx.impl_run('sched_impl', cases[i:i + 20])
